@@ -16,7 +16,7 @@ from simkit.core import RunResult, ddmin_list, short_hash
 
 LEVEL = {"C13": "exploration"}
 TIERS = {"C13": (5000, 150, 150000, 1200)}
-PROBES = {"C13": ["stretch_inside_training", "stretch_overlapping_end", "stretch_after_training",
+PROBES = {"C13": ["stretch_inside_training", "stretch_overlapping_end", "stretch_after_training", "stretch_before_training",
                   "update_between_transforms", "seasonal_phase_checked", "roundtrip_checked",
                   "fit_transform_checked", "index_preserving_checked", "shifted_twin_checked",
                   "nonzero_origin", "pickle_midway", "pipeline_as_transformer", "seasonal_fit_checked",
@@ -24,7 +24,7 @@ PROBES = {"C13": ["stretch_inside_training", "stretch_overlapping_end", "stretch
                   "frozen_update_checked", "period_changed_and_refitted",
                   "fit_transform_on_fitted_instance", "unpaired_calls_checked",
                   "sibling_from_same_arguments", "refitted_on_structureless_series",
-                  "failed_refit_checked"]}
+                  "failed_refit_checked", "non_consecutive_training_index", "integer_valued_series"]}
 FAULT_KINDS = {"C13": ["index_shift", "pickle_roundtrip", "update_interleaved", "overlap_batch",
                        "shared_constructor_arguments", "fit_raises_midway"]}
 RULE = {"C13": (
@@ -135,7 +135,7 @@ def generate(prop, rng, tier):
     for _ in range(rng.randint(2, 6 if not big else 10)):
         r = rng.random()
         if r < 0.6:
-            where = rng.choice(["inside", "overlap", "after", "start"])
+            where = rng.choice(["inside", "overlap", "after", "start", "before"])
             ops.append({"op": "roundtrip", "where": where, "off": rng.randint(0, 9),
                         "len": max(minstretch, rng.randint(1, 12)),
                         "stride": rng.choice([1, 1, 1, 2, 3]) if minstretch == 1 else 1})
@@ -145,7 +145,7 @@ def generate(prop, rng, tier):
                         "up": rng.random() < 0.5})
             total += take
         elif r < 0.88:
-            ops.append({"op": "fit_transform"})
+            ops.append({"op": "fit_transform", "strided": rng.random() < 0.4})
         elif r < 0.92 and (spec["kind"] == "optional" or
                            spec["kind"] in ("deseason", "cdeseason")):
             sps = [k for k in (2, 3, 4, 5, 7) if 2 * k + 3 <= n0 and k != _base0(spec).get("sp")]
@@ -182,14 +182,23 @@ def generate(prop, rng, tier):
                        "index": rng.choice(["range", "range", "int"]),
                        "sp": series_sp},
             "shift": rng.choice([-40, -3, 1, 2, 5, 17, 500]),
+            "int_values": rng.random() < 0.15,
+            # observations that precede the training series (stretches may start there)
+            "pre": rng.choice([0, 3, 5, 8]) if _base0(spec)["kind"] in (
+                "deseason", "cdeseason", "log", "boxcox", "adapt", "detrend", "cos") else 0,
             "outliers": rng.random() < 0.5}
 
 
 def _series(scen, shift=0):
+    """The whole series: scen["pre"] points before the training start, then the training
+    series and everything after it."""
     s = scen["series"]
-    y = C.make_series(s["seed"], s["n"], s["origin"] + shift, s["index"], sp=s["sp"],
+    pre = scen.get("pre", 0)
+    y = C.make_series(s["seed"], s["n"] + pre, s["origin"] + shift - pre, s["index"], sp=s["sp"],
                       positive=True, noise=0.8)
     k = _base(scen["spec"])["kind"]
+    if scen.get("int_values") and k not in ("hampel", "imputer"):
+        y = y.round().astype("int64")      # counts: an integer-dtype series
     if k in ("hampel",) and scen.get("outliers"):
         rs = np.random.RandomState(s["seed"] + 5)
         pos = rs.choice(len(y), size=max(1, len(y) // 9), replace=False)
@@ -209,9 +218,11 @@ def execute(prop, scen):
     spec = scen["spec"]
     kind = spec["kind"]
     base = _base(spec)
-    y = _series(scen)
+    PRE = scen.get("pre", 0)
+    full = _series(scen)
     c = scen["shift"]
-    y2 = _series(scen, c)
+    full2 = _series(scen, c)
+    y, y2 = full.iloc[PRE:], full2.iloc[PRE:]
     res.fault("index_shift")
     res.real.update(C.class_names(spec) if kind not in ("cos", "ttf_t") else
                     {"transformations.series.cos.CosineTransformer"} if kind == "cos" else
@@ -221,6 +232,8 @@ def execute(prop, scen):
         res.probe("pipeline_as_transformer")
     if scen["series"]["origin"] != 0:
         res.probe("nonzero_origin")
+    if scen.get("int_values"):
+        res.probe("integer_valued_series")
     digest = hashlib.sha256()
     t, t2 = build(spec), build(spec)
     tag_same_index = bool(type(t)._all_tags().get("transform-returns-same-time-index", False))
@@ -564,6 +577,10 @@ def execute(prop, scen):
             elif o == "fit_transform":
                 # fit_transform == fit followed by transform, on fresh clones
                 z = y.iloc[:n_fit]
+                if op.get("strided") and 2 * n_fit <= len(y) and kind != "ttf_t" and \
+                        _base0(spec)["kind"] in ("deseason", "cdeseason", "log", "boxcox", "adapt", "cos"):
+                    z = y.iloc[:2 * n_fit:2]     # regularly spaced, but not consecutive, time points
+                    res.probe("non_consecutive_training_index")
                 try:
                     with peers.paused():
                         a_ = clone(t).fit_transform(z.copy())
@@ -581,6 +598,10 @@ def execute(prop, scen):
                 ln = op["len"]
                 if where == "start":
                     a = 0
+                elif where == "before":
+                    if not PRE:
+                        continue
+                    a = -(1 + op["off"] % PRE)   # starts before the first training time point
                 elif where == "inside":
                     a = min(op["off"], max(0, n_fit - 1))
                 elif where == "overlap":
@@ -589,18 +610,21 @@ def execute(prop, scen):
                     a = pos + op["off"]
                 stride = op.get("stride", 1)
                 b = min(len(y), a + ln * stride)
-                if b - a < 1 or y.iloc[a:b:stride].notna().sum() < 2:
+
+                def cut(yy, a=a, b=b, stride=stride):
+                    return (full if yy is y else full2).iloc[a + PRE:b + PRE:stride]
+                if b - a < 1 or cut(y).notna().sum() < 2:
                     continue
                 if stride > 1:
                     res.probe("strided_stretch")
                 res.probe({"inside": "stretch_inside_training", "start": "stretch_inside_training",
-                           "overlap": "stretch_overlapping_end",
+                           "overlap": "stretch_overlapping_end", "before": "stretch_before_training",
                            "after": "stretch_after_training"}[where])
-                outs = both("transform", lambda tr, yy: tr.transform(yy.iloc[a:b:stride].copy()))
+                outs = both("transform", lambda tr, yy: tr.transform(cut(yy).copy()))
                 if outs is None:
                     break
                 zt, zt2 = outs
-                z, z2 = y.iloc[a:b:stride], y2.iloc[a:b:stride]
+                z, z2 = cut(y), cut(y2)
                 digest.update(C.digest_obj(zt).encode() if isinstance(zt, (pd.Series, pd.DataFrame))
                               else b"x")
                 if a != 0 and (updates_since_fit or c != 0):
